@@ -86,7 +86,7 @@ func (s *c13Script) settle() { time.Sleep(4 * time.Millisecond) }
 // meaningful while a READER holds the lock.
 func (s *c13Script) waitWriterQueued() bool {
 	mu := s.e.GetLock()
-	deadline := time.Now().Add(2 * time.Second)
+	deadline := time.Now().Add(5 * time.Second)
 	for time.Now().Before(deadline) {
 		if mu.TryRLock() {
 			mu.RUnlock()
@@ -495,7 +495,7 @@ var c13Scenarios = []c13Scenario{
 		}
 		w := s.spawn(c13Rem(grant))
 		if !s.waitWriterQueued() {
-			s.bad("no writer was seen waiting on the lock within 2 s")
+			s.bad("no writer was seen waiting on the lock within 5 s")
 		}
 		s.settle()
 		s.mustBeBlocked("while an Enforce call was parked under the read lock", w)
@@ -523,7 +523,7 @@ var c13Scenarios = []c13Scenario{
 		}
 		w := s.spawn(c13RemGr(link))
 		if !s.waitWriterQueued() {
-			s.bad("no writer was seen waiting on the lock within 2 s")
+			s.bad("no writer was seen waiting on the lock within 5 s")
 		}
 		s.settle()
 		s.mustBeBlocked("while an Enforce call was parked under the read lock", w)
@@ -558,7 +558,7 @@ var c13Scenarios = []c13Scenario{
 		}
 		w := s.spawn(c13Rem(grant))
 		if !s.waitWriterQueued() {
-			s.bad("no writer was seen waiting on the lock within 2 s")
+			s.bad("no writer was seen waiting on the lock within 5 s")
 		}
 		s.settle()
 		s.mustBeBlocked("while an Enforce call was parked under the read lock", w)
